@@ -51,7 +51,8 @@ EdgesOf(fs, lvl) ==
         reads  == {[src |-> s, act |-> "read", arg |-> 0,
                     res |-> IF s = 0 THEN "eof" ELSE "ok", line |-> s,
                     dst |-> IF s = 0 THEN 0 ELSE s - 1] : s \in 0..n}
-        seeks  == UNION {{[src |-> s, act |-> "seek", arg |-> t, res |-> o.res, line |-> 0, dst |-> o.cur]
+        seeks  == UNION {{[src |-> s, act |-> "seek", arg |-> t, res |-> o.res, line |-> 0,
+                           dst |-> IF o.cur = -2 THEN s ELSE o.cur]      \* -2: an error leaves the cursor
                           : o \in SeekOutcomes(fs, lvl, t)} : s \in srcs, t \in tg}
     IN starts \cup reads \cup seeks
 
@@ -69,14 +70,16 @@ Pick == /\ st = "pick"
         /\ st' = "run"
         /\ UNCHANGED <<cur, out, hist>>
 
-\* The history variable: reset by every seek, extended by every read.
+\* The history variable: reset by every seek that SUCCEEDS, extended by every
+\* read.  A seek that reports an error leaves it alone, so the sentences
+\* below speak about read sequences with failed seeks interleaved anywhere:
+\* that is "without mis-positioning subsequent reads".
 HistNext ==
     hist' = CASE out'.op = "start" -> [kind |-> "start", t |-> 0, reads |-> <<>>]
               [] out'.op = "seek" /\ out'.res = "ok" /\ IsPresent(All, out'.arg)
                                   -> [kind |-> "found", t |-> out'.arg, reads |-> <<>>]
               [] out'.op = "seek" /\ out'.res = "ok"
                                   -> [kind |-> "fallback", t |-> out'.arg, reads |-> <<>>]
-              [] out'.op = "seek" -> [kind |-> "failed", t |-> out'.arg, reads |-> <<>>]
               [] out'.op = "read" /\ out'.res = "ok"
                                   -> [hist EXCEPT !.reads = Append(@, out'.line)]
               [] OTHER            -> hist
@@ -91,7 +94,8 @@ GenSpec == Init /\ [][Pick]_pvars
 \* --------------------------------------------- the sentences of the property
 Running == st = "run"
 R == hist.reads
-AtEOF == out.op = "read" /\ out.res = "eof"
+\* eof has been reported (cur = 0 after at least one positioning).
+AtEOF == cur = 0 /\ hist.kind # "none"
 
 \* Whatever seek came last, reads since then are a contiguous descending run
 \* (no line twice, none skipped, reverse order) ...
@@ -118,6 +122,12 @@ SeekLandsOnEntry ==
 OkSeekKeepsOlder ==
     Running /\ hist.kind \in {"found", "fallback"} /\ AtEOF =>
         \A g \in 1..N : All[g].ts < hist.t => \E j \in 1..Len(R) : R[j] = g
+
+\* "... without ever ... mis-positioning subsequent reads", as a property of
+\* every step: a seek that reports an error does not move the cursor (action
+\* property, checked on every transition).
+FailedSeekKeepsPosition ==
+    [][out'.op = "seek" /\ out'.res \in ErrClasses => cur' = cur]_pvars
 
 \* "seeking to an absent timestamp reports not-found, too-early or too-late"
 \* (or, reader level only, takes the documented fallback).
